@@ -270,8 +270,10 @@ func CompactJSON(input, output []byte) []byte {
 			// Skip over whitespace.
 			continue
 		}
-		if c == '-' && input[i] == '0' && !(i+1 < len(input) && (input[i+1] == '.' || input[i+1] == 'e' || input[i+1] == 'E')) {
-			// Negative 0 is changed to '0', skip the '-'. (-0.5 and -0e1 keep their sign.)
+		if c == '-' && input[i] == '0' && !(i+1 < len(input) && (input[i+1] == '.' || input[i+1] == 'e' || input[i+1] == 'E')) &&
+			!(i >= 2 && (input[i-2] == 'e' || input[i-2] == 'E')) {
+			// Negative 0 is changed to '0', skip the '-'. (-0.5 and -0e1 keep their sign, and so does
+			// an exponent: 1e-05 is not 1e05.)
 			continue
 		}
 		// Add the non-whitespace character to the output.
